@@ -10,6 +10,11 @@ import (
 // and near misses: literal paths and prefixes, '*', '?', '**', classes,
 // stacked trailing globs, negations, duplicates and unclean spellings.
 func GenPatterns(t *rapid.T, tr *Tree, label string, maxN int) []string {
+	if rapid.IntRange(0, 4).Draw(t, label+".structured") == 0 {
+		if out := genBaseWithExceptions(t, tr, label); out != nil {
+			return out
+		}
+	}
 	n := rapid.IntRange(0, maxN).Draw(t, label+".n")
 	var out []string
 	for i := 0; i < n; i++ {
@@ -91,4 +96,84 @@ func HasNegation(ps []string) bool {
 		}
 	}
 	return false
+}
+
+// genBaseWithExceptions builds the shape real users write: a pattern for a
+// directory followed by 1-3 '!' exceptions for entries below it - literal
+// ones and ones with a wildcard in a middle or the last component, in a drawn
+// order - and optionally one more positive pattern for the directory after
+// them. Returns nil if the tree has no directory with a descendant.
+func genBaseWithExceptions(t *rapid.T, tr *Tree, label string) []string {
+	var dirs []string
+	below := map[string][]string{}
+	for _, n := range tr.Nodes {
+		for d := n.Path; ; {
+			i := strings.LastIndex(d, "/")
+			if i < 0 {
+				break
+			}
+			d = d[:i]
+			if len(below[d]) == 0 {
+				dirs = append(dirs, d)
+			}
+			below[d] = append(below[d], n.Path)
+		}
+	}
+	if len(dirs) == 0 {
+		return nil
+	}
+	d := dirs[rapid.IntRange(0, len(dirs)-1).Draw(t, label+".s.dir")]
+	base := d
+	dc := strings.Split(d, "/")
+	switch rapid.IntRange(0, 5).Draw(t, label+".s.baseform") {
+	case 0:
+		dc[len(dc)-1] = "*"
+		base = strings.Join(dc, "/")
+	case 1:
+		last := dc[len(dc)-1]
+		if len(last) > 0 {
+			dc[len(dc)-1] = last[:1] + "*"
+			base = strings.Join(dc, "/")
+		}
+	case 2:
+		base = d + "/**"
+	}
+	out := []string{base}
+	k := rapid.IntRange(1, 3).Draw(t, label+".s.nexc")
+	for i := 0; i < k; i++ {
+		li := label + ".s.e" + itoa(i)
+		x := below[d][rapid.IntRange(0, len(below[d])-1).Draw(t, li+".x")]
+		xc := strings.Split(x, "/")
+		nd := len(strings.Split(d, "/"))
+		switch rapid.IntRange(0, 5).Draw(t, li+".form") {
+		case 0, 1: // literal
+		case 2: // wildcard in a middle component below the directory (or the last one)
+			j := nd
+			if len(xc)-1 > nd {
+				j = rapid.IntRange(nd, len(xc)-2).Draw(t, li+".mid")
+			}
+			xc[j] = "*"
+		case 3: // any depth
+			xc = append(append([]string{}, xc[:nd]...), "**", xc[len(xc)-1])
+		case 4: // wildcard in the last component
+			last := xc[len(xc)-1]
+			if len(last) > 0 {
+				xc[len(xc)-1] = last[:1] + "*"
+			}
+		case 5: // a prefix of the path
+			if len(xc)-1 > nd {
+				xc = xc[:rapid.IntRange(nd+1, len(xc)).Draw(t, li+".cut")]
+			}
+		}
+		out = append(out, "!"+strings.Join(xc, "/"))
+	}
+	if rapid.IntRange(0, 2).Draw(t, label+".s.tail") == 0 {
+		first := strings.Split(d, "/")[0]
+		tail := rapid.SampledFrom([]string{first[:1] + "*", "*", d, "**/" + dc[len(dc)-1]}).Draw(t, label+".s.tailp")
+		out = append(out, tail)
+	}
+	if rapid.IntRange(0, 3).Draw(t, label+".s.lead") == 0 {
+		out = append([]string{rapid.SampledFrom([]string{"*", "**", "*/*"}).Draw(t, label+".s.leadp")}, out...)
+	}
+	return out
 }
